@@ -1226,6 +1226,7 @@ var host struct {
 	Copy  func(io.Reader)
 	Show  func(...interface{})
 	Shape func(interface{}) int
+	Join  func(...fmt.Stringer)
 
 	// values of every shape crossing the boundary (property C07)
 	Swap      func(ht.Pair) ht.Pair
@@ -1253,6 +1254,7 @@ var host struct {
 	IsPos     func(int) bool
 	Two       func(int) (int, int)
 	Add       func(int, int) int
+	Sub       func(int, int) int
 	Repeat    func(func(int) int, int) int
 }
 
@@ -1268,6 +1270,7 @@ func Bind(h map[string]interface{}) {
 	host.Copy = h["Copy"].(func(io.Reader))
 	host.Show = h["Show"].(func(...interface{}))
 	host.Shape = h["Shape"].(func(interface{}) int)
+	host.Join = h["Join"].(func(...fmt.Stringer))
 	host.Swap = h["Swap"].(func(ht.Pair) ht.Pair)
 	host.Scale = h["Scale"].(func(*ht.Pair, int))
 	host.NewPair = h["NewPair"].(func(int, int) *ht.Pair)
@@ -1293,6 +1296,7 @@ func Bind(h map[string]interface{}) {
 	host.IsPos = h["IsPos"].(func(int) bool)
 	host.Two = h["Two"].(func(int) (int, int))
 	host.Add = h["Add"].(func(int, int) int)
+	host.Sub = h["Sub"].(func(int, int) int)
 	host.Repeat = h["Repeat"].(func(func(int) int, int) int)
 }`
 
